@@ -134,8 +134,28 @@ def encode(case, frames, flags):
     p = case["params"]
     mp = p.get("model_parameters", {})
     margin = "margin" in p["estimands"]
-    params = (f"{{| p_thr := {qlit(p['percent_reporting_threshold'])}; p_lo := {qlit(mp.get('turnout_factor_lower', 0.5))}; "
-              f"p_hi := {qlit(mp.get('turnout_factor_upper', 2.0))}; p_unit_bl := {llit([slit(x) for x in mp.get('unit_blocklist', [])])}; "
+    # the limits as the binary64 comparison sees them: the implementation compares the ROUNDED quotient results / baseline with the limit
+    # (inclusive), the model the exact quotient; a unit whose rounded quotient equals a limit is on the limit, so the limit handed to the
+    # model is moved onto the exact quotient of such a unit (rounding is monotone, so no other unit's decision changes)
+    from fractions import Fraction
+    lo_f, hi_f = float(mp.get("turnout_factor_lower", 0.5)), float(mp.get("turnout_factor_upper", 2.0))
+    lo_q, hi_q = Fraction(lo_f), Fraction(hi_f)
+    feed_by = {}
+    for f in case["feed"]:
+        feed_by.setdefault((f["postal_code"], f["geographic_unit_fips"]), f)
+    for b in case["baseline"]:
+        f = feed_by.get((b["postal_code"], b["geographic_unit_fips"]))
+        w = weights_of(b, margin, "baseline")
+        if f is None or not w or has_nan(f, p["estimands"]):
+            continue
+        rw = weights_of(f, margin, "results")
+        tf_f, tf_q = float(rw) / float(w), Fraction(rw) / Fraction(w)
+        if tf_f == lo_f:
+            lo_q = max(lo_q, tf_q)
+        if tf_f == hi_f:
+            hi_q = min(hi_q, tf_q)
+    params = (f"{{| p_thr := {qlit(p['percent_reporting_threshold'])}; p_lo := {qlit(lo_q)}; "
+              f"p_hi := {qlit(hi_q)}; p_unit_bl := {llit([slit(x) for x in mp.get('unit_blocklist', [])])}; "
               f"p_postal_bl := {llit([slit(x) for x in mp.get('postal_code_blocklist', [])])}; "
               f"p_zero_policy := {core.blit(p.get('handle_unreporting', 'drop') == 'zero')}; p_margin := {core.blit(margin)} |}}")
     base = llit([f"{{| b_id := {slit(b['geographic_unit_fips'])}; b_postal := {slit(b['postal_code'])}; b_w := {qlit(weights_of(b, margin, 'baseline'))} |}}"
